@@ -475,6 +475,10 @@ int _GD_FiniRawIO(DIRFILE *D, const gd_entry_t *E, int fragment, int flags)
       }
 
       if ((*_GD_ef[E->e->u.raw.file[0].subenc].close)(E->e->u.raw.file + 1)) {
+        /* finishing the out-of-place write failed: the data just written are
+         * not on disk, and the caller must be told */
+        if (D->error == GD_E_OK)
+          _GD_SetEncIOError(D, GD_E_IO_CLOSE, E->e->u.raw.file + 1);
         dreturn("%i", -1);
         return -1;
       }
